@@ -18,7 +18,11 @@ import (
 type C02Case struct {
 	Prog *ragen.Program `json:"prog"`
 	Lab  []string       `json:"labels,omitempty"`
+	// Global: extra global arguments (log level, output format): stdout is the data channel whatever they are
+	Global []string `json:"global,omitempty"`
 }
+
+var c02Globals = [][]string{nil, nil, nil, nil, {"-l", "debug"}, {"-l", "trace"}, {"-l", "warn"}, {"--log-level", "info"}, {"-o", "github"}, {"-l", "trace", "-o", "github"}, {"-l", "error"}}
 
 func c02Opt() ragen.GenOpt {
 	o := ragen.GenOpt{
@@ -45,7 +49,17 @@ func c02Opt() ragen.GenOpt {
 
 func genC02(t *rapid.T) C02Case {
 	g := ragen.GenProgram(t, c02Opt())
-	return C02Case{Prog: g.Prog, Lab: labelsOf(g.Labels)}
+	c := C02Case{Prog: g.Prog, Lab: labelsOf(g.Labels)}
+	c.Global = rapid.SampledFrom(c02Globals).Draw(t, "global")
+	if rapid.IntRange(0, 5).Draw(t, "dangling") == 0 {
+		// a reference to a name nobody defines stays literal text (and makes the parser log a warning)
+		c.Prog.Main = append(c.Prog.Main, ragen.Line{K: ragen.KEntry, T: "q{{nodef}}"})
+		c.Lab = append(c.Lab, "dangling-reference")
+	}
+	if len(c.Global) > 0 {
+		c.Lab = append(c.Lab, "global:"+strings.Join(c.Global, " "))
+	}
+	return c
 }
 
 // pasteProblems returns the violated C02 predicates for the generated text o.
@@ -153,8 +167,9 @@ func checkC02(c C02Case) Outcome {
 		out.HarnessError = "generated program does not resolve: " + err.Error()
 		return out
 	}
-	r := generate(c.Prog)
+	r := generateWith(c.Prog, c.Global...)
 	out.Detail["program"] = c.Prog.MainText()
+	out.Detail["global"] = c.Global
 	out.Detail["stdout"] = r.Stdout
 	out.Detail["exit"] = r.Exit
 	if r.Exit != 0 {
